@@ -1,6 +1,6 @@
 (* C04: the theorems of Properties/C04.v, assembled from SortLemmas / Settle / Refute. *)
 From V Require Import Base.PyInt Gen.WireOps Model.SimKernel Model.Sort Spec.C04.
-From V Require Import Proofs.C04.SortLemmas Proofs.C04.Settle Proofs.C04.Refute Proofs.C04.Chain.
+From V Require Import Proofs.C04.SortLemmas Proofs.C04.Settle Proofs.C04.Refute Proofs.C04.Chain Proofs.C04.Acyclic.
 From Coq Require Import Permutation.
 Local Open Scope nat_scope.
 
@@ -21,6 +21,15 @@ Proof.
   intros succ d l Hc Hr. exists (S (length l * sumd d l)). intros l0 P K HK.
   exact (sort_fuel_terminates succ d l Hc Hr l0 P K HK).
 Qed.
+
+Lemma acyclic_iff_ranking_thm : forall succ l, closed succ l ->
+  ((forall v, In v l -> ~ path succ v v) <-> exists d, ranking succ l d).
+Proof. exact acyclic_iff_ranking. Qed.
+
+Lemma sort_terminates_acyclic_thm : forall succ l,
+  closed succ l -> (forall v, In v l -> ~ path succ v v) ->
+  exists K0, forall l0, Permutation l l0 -> forall K, K0 <= K -> exists l', sort_fuel succ K l0 = Some l'.
+Proof. exact sort_terminates_acyclic. Qed.
 
 Lemma swap_increases_measure_thm : forall succ d l i p,
   closed succ l -> ranking succ l d -> i < length l ->
